@@ -147,6 +147,16 @@ def drive(item):
         wx, wz = em.get_weights(code, p)
         rec['wx'] = [marginal_from_weight(w) for w in wx]
         rec['wz'] = [marginal_from_weight(w) for w in wz]
+        # ... and what actually reaches the matcher: the weights of the edges
+        # of the matching graphs built by MatchingDecoder (edge of qubit q)
+        rec['mwx'], rec['mwz'] = [], []
+        if name in ('Toric2DCode', 'Planar2DCode', 'RotatedPlanar2DCode') and pn > 0:
+            from panqec.decoders import MatchingDecoder
+            mdec = MatchingDecoder(code, em, p)
+            for key, matcher in (('mwx', mdec.matcher_x), ('mwz', mdec.matcher_z)):
+                for (_, _, attr) in matcher.edges():
+                    for q in attr['fault_ids']:
+                        rec[key].append([int(q) + 1, marginal_from_weight(attr['weight'])])
         # BP-OSD priors (decoder on the plain code and, if a deformation is
         # named, on the deformed = non-CSS code) and conditional update
         if 0 < pn < den:
@@ -165,7 +175,7 @@ def drive(item):
                 passes.append(([to_g(x) for x in bx], [to_g(x) for x in bz], deform_code))
             rec['bp_px'], rec['bp_pz'], _ = passes[0]
             for bx, bz, _ in passes[1:]:
-                extra = dict(rec, bp_px=bx, bp_pz=bz, samples=[], fast=[], wx=[], wz=[], upd=[], edge=[])
+                extra = dict(rec, bp_px=bx, bp_pz=bz, samples=[], fast=[], wx=[], wz=[], upd=[], edge=[], mwx=[], mwz=[])
                 extra['_label'] = f'{codes.label(name, size, dn, kw)} pn={pn} r={r} (decoder on deformed code)'
                 extra['_cost'] = n
                 recs.append(extra)
@@ -219,7 +229,7 @@ def interference(item):
                 recs.append({'Den': den, 'G': G, 'pn': pn, 'r': list(r), 'n': int(n), 'D': D,
                              'tables': [[on_grid(pi[q], d2), on_grid(px[q], d2), on_grid(py[q], d2),
                                          on_grid(pz[q], d2)] for q in range(n)],
-                             'samples': [], 'fast': [], 'edge': [],
+                             'samples': [], 'fast': [], 'edge': [], 'mwx': [], 'mwz': [],
                              'wx': [marginal_from_weight(w) for w in wx],
                              'wz': [marginal_from_weight(w) for w in wz],
                              'bp_px': [], 'bp_pz': [], 'upd': [],
@@ -270,7 +280,7 @@ def shared_model(item):
                              'samples': [{'js': js, 'letters': letters, 'draws': gen.calls,
                                           'len': int(e.shape[0]),
                                           'binary': bool(np.all((e == 0) | (e == 1)))}],
-                             'fast': [], 'edge': [], 'wx': [], 'wz': [], 'bp_px': [], 'bp_pz': [], 'upd': [],
+                             'fast': [], 'edge': [], 'mwx': [], 'mwz': [], 'wx': [], 'wz': [], 'bp_px': [], 'bp_pz': [], 'upd': [],
                              '_label': f'{codes.label(name, size, dn, kw)} pn={pn} r={r} '
                                        f'(one model shared by {len(objs)} codes of equal n, pass {rep})',
                              '_cost': n})
